@@ -10,7 +10,7 @@ MANIFEST = {
     'technique': 'quantity-kind (T/P) typing of every value stored into the thermal condition, plus a must-store rule for the specified quantities on every normal path '
             '(interprocedural through the single-component helpers); exhaustiveness of the VLE.__call__ dispatch; taint + must-pass rule for flow-derived per-call '
             'state in VLE._setup; symbolic shape check of the equilibrium-ratio update, the Rachford-Rice composition update and the fugacity functions '
-            '(iso-fugacity); lever-rule form check with call-site versioning',
+            '(iso-fugacity); lever-rule form check with call-site versioning; index-space typing of every gather (full-tuple positions vs sub-sequences, tables read from _compile)',
     'text': 'Decides for every input the specification-plumbing clause only: on every normal return of each set_XY/_set_XY_chemical the specified T (resp. P) is '
             'what the thermal condition holds, every value stored into T is temperature-kinded and into P pressure-kinded, VLE.__call__ passes each specification '
             'to the parameter of the same kind and its dispatch over specification pairs is exhaustive; every field that VLE._setup computes from the amounts of '
@@ -18,7 +18,8 @@ MANIFEST = {
             'changed. The iso-fugacity clause is decided in shape: both fixed-point kernels update K <- pcf*Psat/P*gamma(x)/phi(y) with x, y = xy(x, K) and x <- '
             'z/(1+V(K-1)); the Gibbs-minimisation path uses f_L = x*gamma(x)*pcf*Psat and f_V = y*P*phi(y). In the four single-component H/S helpers the vapour '
             'fraction on the two-phase path is (X - X_bubble)/(X_dew - X_bubble), X_dew evaluated with the vapour row full and X_bubble with it empty. Residuals of '
-            'V/H/S specifications, iso-fugacity, Rachford-Rice agreement and scaling are numerical and not decided.',
+            'V/H/S specifications, iso-fugacity, Rachford-Rice agreement and scaling are numerical and not decided. The chemicals the solver objects are built for and '
+            'every array gathered for them are taken at full-tuple positions from full-length sequences only (index-space rule; tables read from CompiledChemicals._compile).',
 }
 
 VLEF = 'thermosteam/equilibrium/vle.py'
@@ -95,7 +96,10 @@ def form_kind(f):
 
 def run(ctx):
     prog = ctx.prog
-    ctx.decided = ['D2 every equilibrium component object built by the solver receives the solver\'s own property package (never the global default)',
+    ctx.decided = ['D6 the equilibrium chemicals, their flows and every per-chemical table gathered for them are taken at the positions CompiledChemicals hands out '
+                   '(get_vle_indices, _light_indices, ...: positions in the FULL chemical tuple, read from _compile) from full-length sequences only, never from the '
+                   'shorter sub-sequences (vle_chemicals, ...) or from something already gathered',
+                   'D2 every equilibrium component object built by the solver receives the solver\'s own property package (never the global default)',
                    'D4 iso-fugacity shape: both fixed-point kernels update K <- pcf*Psat/P * gamma(x)/phi(y) (gamma at the liquid, phi at the vapour composition) '
                    'and x <- z/(1+V(K-1)); xy gives y ~ x*K; the Gibbs-minimisation path uses f_L = x*gamma(x)*pcf*Psat and f_V = y*P*phi(y)',
                    'D5 single-component H/S specifications: the vapour fraction on the two-phase path is (X - X_bubble)/(X_dew - X_bubble), X_dew evaluated with all '
@@ -215,6 +219,10 @@ def run(ctx):
     isofugacity_shape(ctx, d5, vle)
     d6 = ctx.rule('D5', 'single-component H/S specification: lever rule between the saturated states', floor=4)
     lever_rule_HS(ctx, d6, vle)
+    d7 = ctx.rule('D6', 'positions in the full chemical tuple never subscript a sub-sequence of it', floor=60)
+    from ..generic import index_space
+    n_, subseq, fullidx, producers = index_space(ctx.prog, d7, {VLEF})
+    ctx.extra['index_spaces'] = {'gathers_examined': n_, 'sub_sequences_of_compile': subseq, 'tables_of_full_positions': fullidx, 'methods_handing_out_full_positions': producers}
 
 
 SUPPORT_ONLY = {'nonzero_keys', 'any', 'nonzero', 'keys', 'nonzero_index', 'has_data'}
